@@ -3,6 +3,7 @@ from __future__ import annotations
 
 import hashlib
 import json
+import os
 import time
 from collections import Counter
 from dataclasses import dataclass, field
@@ -144,12 +145,26 @@ def hyp_search(strategy, body: Callable[[Any], list], seed: int, max_examples: i
     from hypothesis import given
     from hypothesis.errors import Flaky, FlakyFailure  # type: ignore
 
-    st = {"best": None, "bestkey": None, "t0": None}
+    # development knob (kill matrices only need the verdict, not a minimal case)
+    shrink_budget_s = float(os.environ.get("VERIF_SHRINK_BUDGET", shrink_budget_s))
+    if shrink_budget_s <= 0:
+        shrink = False
+    st = {"best": None, "bestkey": None, "bestinput": None, "t0": None}
 
     @hypothesis.seed(seed)
     @hyp_settings(max_examples, shrink=shrink)
     @given(strategy)
     def t(case):
+        if st["t0"] is not None and time.monotonic() - st["t0"] > shrink_budget_s:
+            # budget used up: only the best case found so far still fails, and nothing else is evaluated any
+            # more, so the shrinker runs out of candidates quickly
+            try:
+                same = canon(case) == st["bestinput"]
+            except Exception:
+                same = False
+            if same:
+                raise _Viol()
+            return
         fails = body(case)
         if not fails:
             return
@@ -161,6 +176,10 @@ def hyp_search(strategy, body: Callable[[Any], list], seed: int, max_examples: i
             return
         st["best"] = fails
         st["bestkey"] = key
+        try:
+            st["bestinput"] = canon(case)
+        except Exception:
+            st["bestinput"] = None
         raise _Viol()
 
     try:
